@@ -696,11 +696,27 @@ func runBarrierK(a args, r *h.Rand, idx, k int, upBarrier bool) {
 			}
 		}
 	}
+	// decorated output and a task that owns the terminal: the others still run beside it
+	prefixedInteractive := !upBarrier && !shared && k <= 6 && idx%3 == 1
+	if prefixedInteractive {
+		br.OutputFormat = "prefixed"
+		if f, err := os.Open("/dev/null"); err == nil {
+			defer f.Close()
+			br.Stdin = f
+		}
+		for _, st := range list {
+			if st.Name == "b0" {
+				st.Task.Interactive = true
+			} else if st.Task != nil {
+				st.Task.Commands = append([]string{"echo starting " + st.Name}, st.Task.Commands...)
+			}
+		}
+	}
 	sch := scheduler.NewScheduler(br)
 	sch.VerifSetPause(time.Millisecond)
 	done := make(chan error, 1)
 	go func() { done <- sch.Schedule(g) }()
-	cas := map[string]interface{}{"barrier_stages": k, "diamond": diamond, "stages_share_one_task": shared, "tasks_in_one_named_context_with_hooks": namedCtx, "context_up_commands_wait_for_each_other": upBarrier}
+	cas := map[string]interface{}{"prefixed_output_and_one_interactive_task": prefixedInteractive, "barrier_stages": k, "diamond": diamond, "stages_share_one_task": shared, "tasks_in_one_named_context_with_hooks": namedCtx, "context_up_commands_wait_for_each_other": upBarrier}
 	select {
 	case err := <-done:
 		out.Count("executions", 1)
